@@ -236,8 +236,8 @@ RefinesContract ==
   [][ CASE last'.op = "Alloc"   -> C!AllocOk(last'.id, last'.req, last'.rx, last'.rx, last'.len, OkObs, last'.st)
         [] last'.op = "Release" -> C!ReleaseOk(last'.id, OkObs, last'.st)
         [] last'.op = "Shrink"  -> C!ShrinkOk(last'.id, last'.req, last'.rx, last'.rx, last'.len, OkObs, last'.st)
-        [] last'.op = "ResetHard" -> C!ResetOk("hard", TRUE, last'.st)
-        [] last'.op = "ResetSoft" -> C!ResetOk("soft", TRUE, last'.st)
+        [] last'.op = "ResetHard" -> C!ResetOk("hard", TRUE, TRUE, last'.st)
+        [] last'.op = "ResetSoft" -> C!ResetOk("soft", TRUE, TRUE, last'.st)
         [] OTHER -> TRUE ]_vars
 
 (* ---- structural invariants of the algorithm ---- *)
